@@ -150,6 +150,19 @@ def run_reflection(case):
       return bad("parcor:rebuild", "stepping the coefficients up again does not rebuild the filter", a, got, nt)
   # through levinson_durbin whenever the recursion does not divide by zero (no |k| = 1): with some
   # |k| > 1 the "autocorrelation" is indefinite and the error may be negative - still the same algebra
+  if all(abs(k) != 1 for k in ks[:-1]) and abs(ks[-1]) == 1:
+    # a LAST coefficient of exactly +-1 (a perfectly predictable signal at this order): the recursion never
+    # divides by zero - the final error is zero - so levinson_durbin returns the filter, with error 0
+    r = lpcref.acorr_from_reflection(ks, F(3, 2))
+    try:
+      filt = levinson_durbin([Q(v) for v in r])
+    except Exception as exc:
+      return bad("levinson:last-unit", "levinson_durbin raised although only the LAST reflection coefficient has "
+                 "magnitude 1 (no division by zero occurs; the error is 0)", {"k": ks, "error": 0}, type(exc).__name__, nt)
+    acoefs = [fr(v) for v in filt.numerator]
+    if acoefs != lpcref.step_up(list(ks)) or fr(filt.error) != 0:
+      return bad("levinson:last-unit", "filter / error wrong for a last reflection coefficient of magnitude 1",
+                 {"a": lpcref.step_up(list(ks)), "error": 0}, {"a": acoefs, "error": filt.error}, nt)
   if all(abs(k) != 1 for k in ks):
     r = lpcref.acorr_from_reflection(ks, F(3, 2))
     filt = levinson_durbin([Q(v) for v in r])
@@ -223,6 +236,29 @@ def gen_plain(run):
       yield (list(combo),)
 
 
+def gen_deep(run):
+  for n in (300, 1200):
+    for c, stable in (("-1/2", True), ("1/2", True), ("-2", False), ("1", False)):
+      yield (n, c, stable)
+
+
+def run_deep(case):
+  """A comb-like denominator 1 + c z^-N of order in the hundreds / above a thousand: the step-down
+  runs through every order (all the inner reflection coefficients are zero)."""
+  n, c, stable = case
+  den = [Q(1)] + [Q(0)] * (n - 1) + [Q(c)]
+  try:
+    st = parcor_stable(ZFilter([Q(1)], den))
+    ks = [fr(k) for k in parcor(ZFilter(list(den), [Q(1)]))] if stable else None
+  except Exception as exc:
+    return bad("stable:deep:" + type(exc).__name__, "order-%d step-down raised" % n, stable, str(exc)[:160], True)
+  if st is not stable:
+    return bad("stable:deep", "parcor_stable wrong for 1 + (%s) z^-%d" % (c, n), stable, st, True)
+  if ks is not None and ks != [F(c)] + [F(0)] * (n - 1):
+    return bad("parcor:deep", "reflection coefficients of 1 + c z^-N are (c, 0, ..., 0), last first", None, ks[:4], True)
+  return R(None, True, (n, stable))
+
+
 def run_plain(case):
   """Denominators with plain int / float coefficients and every gain of a grid (ints 1..128, k/10):
   the verdict must not depend on the leading coefficient, nor may it raise.  Only pole sets whose
@@ -266,6 +302,7 @@ KINDS = OrderedDict([
                       rule="reflection vectors x gains x construction routes; non-trivial: order >= 2")),
   ("roots", Kind(gen_roots, run_roots, chunk=40,
                  rule="multisets of root factors (degree <= 4) x gains x numerators; non-trivial: degree >= 2")),
+  ("deep", Kind(gen_deep, run_deep, chunk=1, timeout=600, rule="comb-like denominators of order 300 and 1200")),
   ("plain-gains", Kind(gen_plain, run_plain, chunk=2,
                        rule="multisets of non-critical root factors (degree <= 3) x 469 int/float gains x 2 numerators")),
 ])
